@@ -139,7 +139,34 @@ def continuation_sweep(ctx):
                 oracle(ctx, '%s %s %s x' % (case(k), case(s2), case(w)), want)
 
 
+# --- second red-team pass ---------------------------------------------------------------------------------------------------------------
+PUNCT_CONTS = [', a', ',a', '= 1', '<> x', '>= 2', '. x', '.x', ':: int', '::int', ':= 1', '[1]', ' [1]', '(1)', ' (1)', '+ 1', '* 2', '- x', '|| y', '; x', '/* c */ y', '-- c\n y',
+               "'s'", '"q"', '`b`', '1', '?', '%s', '@v', 'AS x', 'as x', 'x AS y', "at time zone 'utc'", 'DESC', 'OVER (x)', 'BETWEEN 1 AND 2', 'IN (1)', 'LIKE x', 'NULL', 'IS NULL',
+               'CASE WHEN a THEN b END', ')', ']', 'END', "date '2020'", "interval '1' day", '1 day', ', b, c FROM t', '= a AND b', '-> x', '->> y', '# c\n z', 'x, y', 'x y', '*', '*, a']
+
+
+def punctuation_sweep(ctx):
+    """'The answer ignores … everything after the leading keyword' — also when what follows is not a word: every lead x every operator,
+    punctuation, literal, placeholder and clause head that a grouping pass joins with its left neighbour"""
+    rng = ctx.rng
+    for k in LEADS:
+        for cont in PUNCT_CONTS:
+            sp = '' if cont[0] in '.:([' and cont[:2] not in (' (', ' [') else ' '
+            kk = k if rng.random() < 0.5 else k.lower()
+            oracle(ctx, kk + sp + cont, k)
+
+
+def unknown_sweep(ctx):
+    """'… and UNKNOWN otherwise': every dictionary word that the tables do not type DML/DDL, as the first word of a statement"""
+    for w in all_dictionary_words():
+        if w not in LEADS:
+            oracle(ctx, '%s x' % w, 'UNKNOWN')
+            oracle(ctx, '%s a, b from t' % w.lower(), 'UNKNOWN')
+
+
 def run(ctx):
+    punctuation_sweep(ctx)
+    unknown_sweep(ctx)
     continuation_sweep(ctx)
     heads_sweep(ctx)
     prefix_sweep(ctx)
@@ -195,6 +222,31 @@ def replay_known(ctx, k):
 
 
 def classify(f, kf):
+    """by mechanism.  KF-C18-1: the leading word is lexed as a Name (directly before `(` or before [blanks] `.`).
+    KF-C18-2 (proposed by the second red-team pass, see seeded/redteam/C18/README.md): the leading keyword IS lexed as DML/DDL but a grouping
+    pass that joins a middle token with whatever precedes it absorbs it — `::` (group_typecasts: valid_prev is any token) and `:=`
+    (group_assignment) — so the statement's first child is an Identifier/Assignment group; these are exactly the inputs outside LeadHyp."""
+    from sqlparse import lexer, sql, tokens as T
+    text = f.get('input')
+    if not isinstance(text, str) or not str(f.get('what', '')).startswith('get_type() does not name'):
+        return None
+    try:
+        toks = [(tt, v) for tt, v in lexer.tokenize(text) if tt not in T.Whitespace and tt not in T.Comment]
+        if not toks:
+            return None
+        tt0, v0 = toks[0]
+        if tt0 is T.Name and v0.upper() in LEADS and len(toks) > 1 and toks[1][1] in ('(', '.') and f.get('observed') == 'UNKNOWN':
+            return 'KF-C18-1'
+        if tt0 in (T.Keyword.DML, T.Keyword.DDL) and f.get('observed') == 'UNKNOWN':
+            st = sqlparse.parse(text)[0]
+            first = st.token_first(skip_cm=True)
+            if first is not None and first.is_group and next(first.flatten()).ttype is tt0:
+                if isinstance(first, sql.Assignment) and any(t is T.Assignment for t, _ in toks):
+                    return 'KF-C18-2'
+                if isinstance(first, sql.Identifier) and len(toks) > 1 and toks[1] == (T.Punctuation, '::'):
+                    return 'KF-C18-2'
+    except Exception:
+        return None
     return None
 
 
